@@ -3215,7 +3215,10 @@ RESUME_VALIDATE_CERTS:
         rc = -1;  /* Force the check on existence of user callback */
     }
 
-    if (rc < 0)
+    /*  A validation failure can also be reported through the certificates'
+        authStatus only (expired, key usage, key id, verify depth): the
+        return code is then not negative but an alert has been chosen. */
+    if (rc < 0 || ssl->err != SSL_ALERT_NONE)
     {
         psTraceInfo("WARNING: cert did not pass internal validation test\n");
         /*      Cert auth failed.  If there is no user callback issue fatal alert
